@@ -189,20 +189,26 @@ theorem pppoepool_unique (c : V4Cfg) (hc : GoodV4 c) (h1 : 1 ≤ c.ones) (ops : 
   freelist_unique _ (good_pppoe c hc h1) ops k₁ k₂ a h₁ h₂
 
 /-- every address a session holds lies inside the configured network and is not the network address,
-    the gateway or 255.255.255.255.  (The subnet's own broadcast address is NOT excluded by
-    `isBroadcast`; the theorem states what the code guarantees.) -/
+    the gateway, 255.255.255.255 or — for a network with more than two addresses — the network's
+    broadcast address -/
 theorem pppoepool_in_range (c : V4Cfg) (hc : GoodV4 c) (h1 : 1 ≤ c.ones) (ops : List Op) (k a : Nat)
     (h : (run (init (pppoeCfg c)) ops).held.lookup k = some a) :
-    c.net < a ∧ a < c.net + 2 ^ c.hostBits ∧ a ≠ c.gw ∧ a ≠ 4294967295 :=
-  mem_genPppoe hc h1 (freelist_held_generated _ (good_pppoe c hc h1) ops k a h)
+    c.net < a ∧ a < c.net + 2 ^ c.hostBits ∧ a ≠ c.gw ∧ a ≠ 4294967295 ∧
+      (2 ≤ c.hostBits → a + 1 < c.net + 2 ^ c.hostBits) := by
+  have hg := mem_genPppoe hc h1 (freelist_held_generated _ (good_pppoe c hc h1) ops k a h)
+  refine ⟨hg.1, hg.2.1, hg.2.2.1, hg.2.2.2.1, ?_⟩
+  intro h2
+  have := hg.2.2.2.2 h2
+  have := hg.2.1
+  omega
 
 /-- NewIPPool's address walk has no bound in the code.  It terminates, and the model's fuel of
     2^hostBits steps is enough: any amount of extra fuel yields the same list. -/
 theorem pppoepool_walk_terminates (c : V4Cfg) (hc : GoodV4 c) (h1 : 1 ≤ c.ones) (extra : Nat) :
-    IPArith.walk 32 (IPArith.containsNet c.net c.hostBits) (fun a => a != c.gw && a != 4294967295)
+    IPArith.walk 32 (IPArith.containsNet c.net c.hostBits) (pppoeKeep c)
       (2 ^ c.hostBits + extra) c.net = genPppoe c := by
   have hh : c.hostBits < 32 := by unfold V4Cfg.hostBits; omega
-  have := IPArith.walk_fuel_enough hh hc.lt hc.aligned (fun a => a != c.gw && a != 4294967295)
+  have := IPArith.walk_fuel_enough hh hc.lt hc.aligned (pppoeKeep c)
     (2 ^ c.hostBits) 0 (Nat.pow_pos (by decide)) (by omega) extra
   simpa [genPppoe] using this
 
